@@ -26,6 +26,7 @@ import Proofs.SeedingGlue
 import Proofs.SecondPass
 import Proofs.Total
 import Proofs.Ties
+import Proofs.TiesRun
 namespace Coma.Props
 open Coma Coma.Spec
 
@@ -39,39 +40,40 @@ theorem C07_candidate_total (P : Params) (C : ChainCfg) (hP : GoodParams P) (ref
 
 /-- the first pass never raises, for any seed table whose seeds name references that were read -/
 theorem C07_first_pass_total (cfg : Cfg) (hP : GoodParams cfg.P) (refs : List OMap) (t : SeedTable) (qs : List OMap) (it : Int)
-    (hrefs : ∀ r ∈ refs, StrictAscending r.positions) (hqs : ∀ q ∈ qs, StrictAscending q.positions)
+    (hrefs : ∀ r ∈ refs, Ascending r.positions) (hqs : ∀ q ∈ qs, Ascending q.positions)
     (hseeds : ∀ q ∈ qs, ∀ s ∈ t.lookup q.key, ∃ r ∈ refs, r.id = s.refId) :
     ∃ rows, executeSingle cfg refs t qs it = .ok rows :=
-  Coma.Proofs.executeSingle_total cfg hP refs t qs it hrefs hqs hseeds
-    (fun r hr q hq peaks rev => Coma.Proofs.alignerAlign_total cfg.P cfg.C hP r q peaks rev it (hrefs r hr) (hqs q hq))
+  Coma.Proofs.executeSingle_total_weak' cfg hP refs t qs it hrefs hqs hseeds
 
 /-- computing the unaligned fragments of a first-pass record never raises: the query is found by
     id and the record's start/end coordinates occur in its position list -/
 theorem C07_fragments_total (P : Params) (C : ChainCfg) (hP : GoodParams P) (ref q : OMap) (peaks : List Int)
-    (rev : Bool) (it : Int) (hr : StrictAscending ref.positions) (hq : StrictAscending q.positions)
+    (rev : Bool) (it : Int) (hr : Ascending ref.positions) (hq : Ascending q.positions)
     (hshift : q.shift = 0) (row : Row) (h : alignerAlign P C ref q peaks rev it = .ok row) (hp : row.pairs ≠ [])
     (queries : List OMap) (hfind : queries.find? (fun m => m.id = row.queryId) = some q) :
     ∃ frags, unalignedFragments row queries = .ok frags ∧
-      ∀ f ∈ frags, StrictAscending f.positions ∧ f.id = q.id :=
-  Coma.Proofs.unalignedFragments_total P C hP ref q peaks rev it hr hq hshift row h hp queries hfind
+      ∀ f ∈ frags, Ascending f.positions ∧ f.id = q.id :=
+  Coma.Proofs.unalignedFragments_total_weak P C hP ref q peaks rev it hr hq hshift row h hp queries hfind
 
 /-- the second pass never raises -/
 theorem C07_second_pass_total (cfg : Cfg) (hP : GoodParams cfg.P) (refs : List OMap) (t : SeedTable) (qs : List OMap) (it : Int)
-    (hrefs : ∀ r ∈ refs, StrictAscending r.positions) (hqs : ∀ q ∈ qs, StrictAscending q.positions ∧ q.shift = 0)
+    (hrefs : ∀ r ∈ refs, Ascending r.positions) (hqs : ∀ q ∈ qs, Ascending q.positions ∧ q.shift = 0)
     (hids : (qs.map (·.id)).Nodup)
     (hseeds : ∀ k, ∀ s ∈ t.lookup k, ∃ r ∈ refs, r.id = s.refId)
     (first : List Row) (h1 : executeSingle cfg refs t qs it = .ok first) :
     ∃ second, secondPass cfg refs t qs first it = .ok second :=
-  Coma.Proofs.secondPass_total cfg hP refs t qs it hrefs hqs hids hseeds first h1
+  Coma.Proofs.secondPass_total_weak cfg hP refs t qs it hrefs hqs hids hseeds first h1
 
 /-- whole-run totality of the alignment logic, EVERY output mode ('single', 'separate', 'joined',
-    'all', 'best'): first pass, fragments, second pass, grouping, joins, mode dispatch -/
+    'all', 'best'): first pass, fragments, second pass, grouping, joins, mode dispatch — for WEAKLY ascending label
+    coordinates: molecules with coincident labels are legal input and are inside the theorem (Proofs/Ties.lean,
+    Proofs/TiesRun.lean; non-vacuity witnesses with coincident labels at a record's start and end: `TiesRun.witness_*`) -/
 theorem C07_execute_total (cfg : Cfg) (mode : Mode) (hP : GoodParams cfg.P) (refs : List OMap) (t : SeedTable) (qs : List OMap) (it : Int)
-    (hrefs : ∀ r ∈ refs, StrictAscending r.positions) (hqs : ∀ q ∈ qs, StrictAscending q.positions ∧ q.shift = 0)
+    (hrefs : ∀ r ∈ refs, Ascending r.positions) (hqs : ∀ q ∈ qs, Ascending q.positions ∧ q.shift = 0)
     (hids : (qs.map (·.id)).Nodup)
     (hseeds : ∀ k, ∀ s ∈ t.lookup k, ∃ r ∈ refs, r.id = s.refId) :
     ∃ out, execute cfg mode refs t qs it = .ok out :=
-  Coma.Proofs.execute_total cfg mode hP refs t qs it hrefs hqs hids hseeds
+  Coma.Proofs.execute_total_weak cfg mode hP refs t qs it hrefs hqs hids hseeds
 
 /-- one resolver step can only raise when a non-empty segment has no aligned pair -/
 theorem C07_resolve_step_total (P : Params) (L R : Seg)
@@ -81,10 +83,10 @@ theorem C07_resolve_step_total (P : Params) (L R : Seg)
 
 /-- the first segment of every candidate row is empty or keeps a pair: what the join reads -/
 theorem C07_candidate_first_segment (P : Params) (C : ChainCfg) (hP : GoodParams P) (ref qry : OMap) (peaks : List Int)
-    (rev : Bool) (it : Int) (hr : StrictAscending ref.positions) (hq : StrictAscending qry.positions)
+    (rev : Bool) (it : Int) (hr : Ascending ref.positions) (hq : Ascending qry.positions)
     (row : Row) (h : alignerAlign P C ref qry peaks rev it = .ok row) :
     ∀ s, row.segments.head? = some s → s.items = [] ∨ s.pairs ≠ [] :=
-  Coma.Proofs.alignerAlign_first_segment P C hP ref qry peaks rev it hr hq row h
+  Coma.Proofs.alignerAlign_first_segment_weak P C hP ref qry peaks rev it hr hq row h
 
 /-- writing never raises on rows that are valid matchings -/
 theorem C07_render_total_of_valid (cfg : Cfg) (rows : List Row)
@@ -95,17 +97,17 @@ theorem C07_render_total_of_valid (cfg : Cfg) (rows : List Row)
 /-- the modes without a join: 'separate' (first- and second-pass files) and single-pass
     (instances of `C07_execute_total`, kept because they need fewer hypotheses) -/
 theorem C07_separate_mode_total (cfg : Cfg) (hP : GoodParams cfg.P) (refs : List OMap) (t : SeedTable) (qs : List OMap) (it : Int)
-    (hrefs : ∀ r ∈ refs, StrictAscending r.positions) (hqs : ∀ q ∈ qs, StrictAscending q.positions ∧ q.shift = 0)
+    (hrefs : ∀ r ∈ refs, Ascending r.positions) (hqs : ∀ q ∈ qs, Ascending q.positions ∧ q.shift = 0)
     (hids : (qs.map (·.id)).Nodup)
     (hseeds : ∀ k, ∀ s ∈ t.lookup k, ∃ r ∈ refs, r.id = s.refId) :
     ∃ out, execute cfg .separate refs t qs it = .ok out :=
-  Coma.Proofs.execute_separate_total cfg hP refs t qs it hrefs hqs hids hseeds
+  Coma.Proofs.execute_separate_total_weak cfg hP refs t qs it hrefs hqs hids hseeds
 
 theorem C07_single_mode_total (cfg : Cfg) (hP : GoodParams cfg.P) (refs : List OMap) (t : SeedTable) (qs : List OMap) (it : Int)
-    (hrefs : ∀ r ∈ refs, StrictAscending r.positions) (hqs : ∀ q ∈ qs, StrictAscending q.positions ∧ q.shift = 0)
+    (hrefs : ∀ r ∈ refs, Ascending r.positions) (hqs : ∀ q ∈ qs, Ascending q.positions ∧ q.shift = 0)
     (hseeds : ∀ k, ∀ s ∈ t.lookup k, ∃ r ∈ refs, r.id = s.refId) :
     ∃ out, execute cfg .single refs t qs it = .ok out :=
-  Coma.Proofs.execute_single_total cfg hP refs t qs it hrefs hqs hseeds
+  Coma.Proofs.execute_single_total_weak cfg hP refs t qs it hrefs hqs hseeds
 
 /-- a query that cannot be seeded (no correlation peak: too long for every reference, too few
     labels) contributes no record and does not change the records of the others -/
